@@ -15,7 +15,9 @@ an id, which no cache operation ever removes); all statements are for every stat
         `prefix_entry_ranged_read_equiv` (a *truncated* entry — a prefix of the repository file — never changes a ranged read),
         `dir_entry_read_equiv` / `dir_entry_ranged_read_equiv` (a directory at the entry path: the cache I/O error is
         swallowed, the answer is the repository's).
-* (3) `transparent` — hence whole histories give identical results and identical repository contents.
+* (3) `transparent` — hence whole histories give identical results and identical repository contents (directories anywhere
+        but at the temp path of a file written); `transparent_content_addressed` — under content addressing (a key always
+        stores the same bytes) with directories ANYWHERE.
 * (4) `list_restores_coherence` — from an **arbitrary** cache directory, a listing leaves only entries whose id the
         repository has, with the repository's size (`no_stale_after_listing`); with honest content (no same-size
         corruption — outside the statement) that is `Coh` for the listed type.
@@ -214,10 +216,10 @@ def NoEntry (L : Nat) (cbOf : Key → Bool) (s : St) : Prop :=
 
 def Inv (L : Nat) (cbOf : Key → Bool) (s : St) : Prop := Coh L s ∧ NoEntry L cbOf s
 
-/-- A write-through keeps coherence when the cache write can get through or there was no entry to go stale: a
-directory at the TEMP path of a file that has an entry blocks the update of that entry. -/
+/-- A write-through keeps coherence when the cache write can get through, or there was no entry to go stale, or the
+entry already holds the bytes written: a directory at the TEMP path blocks the update of an existing entry (`hw`). -/
 theorem coh_cWrite {s : St} (hc : Coh L s) {t : FileType} {id : Name} (hl : id.length = L) {d : Bytes}
-    (hw : hasDir s.dirs (ctmp t id) = false)
+    (hw : hasDir s.dirs (ctmp t id) = true → ∀ d0, cHit s.dirs s.cache t id = some d0 → d0 = d)
     {be' : SpecMap} (hbe : be' (t, id) = some d) (hoth : ∀ k, k ≠ (t, id) → be' k = s.be k) :
     Coh L { s with be := be', cache := cWrite s.dirs s.cache t id d } := by
   intro t' id' d' hl' h'
@@ -228,11 +230,15 @@ theorem coh_cWrite {s : St} (hc : Coh L s) {t : FileType} {id : Name} (hl : id.l
     by_cases hwr : writes s.dirs t' id' = true
     · simp [hwr] at h'; subst h'; exact hbe
     · rw [if_neg (fun h => hwr h.2)] at h'
-      -- the write did not get through: a directory sits at the entry path, so there is no entry
-      have hdir : hasDir s.dirs (cpath t' id') = true := by
-        simp only [writes, hw, Bool.not_false, Bool.true_and, Bool.not_eq_eq_eq_not, Bool.not_true] at hwr
-        simpa using hwr
-      rw [cHit_of_dir _ hdir] at h'; cases h'
+      by_cases htmp : hasDir s.dirs (ctmp t' id') = true
+      · -- the cache write was blocked at the temp path: the old entry stays, and it holds the bytes written
+        rw [hw htmp d' h']; exact hbe
+      · -- the write did not get through although the temp path is free: a directory sits at the entry path — no entry
+        have hdir : hasDir s.dirs (cpath t' id') = true := by
+          have htmp' : hasDir s.dirs (ctmp t' id') = false := by simpa using htmp
+          simp only [writes, htmp', Bool.not_false, Bool.true_and, Bool.not_eq_eq_eq_not, Bool.not_true] at hwr
+          simpa using hwr
+        rw [cHit_of_dir _ hdir] at h'; cases h'
   · have e' : ¬((t' = t ∧ id' = id) ∧ writes s.dirs t id = true) := fun h => e h.1
     rw [if_neg e'] at h'
     rw [hoth (t', id') (fun h => e (by cases h; exact ⟨rfl, rfl⟩))]
@@ -273,7 +279,8 @@ theorem ranged_read_preserves {cbOf : Key → Bool} {s : St} (hi : Inv L cbOf s)
     (fun h => (readPartial_state s t id _ off len).2 h)⟩
 
 theorem write_preserves {cbOf : Key → Bool} {s : St} (hi : Inv L cbOf s) (t : FileType) {id : Name}
-    (hl : id.length = L) (d : Bytes) (hw : hasDir s.dirs (ctmp t id) = false) :
+    (hl : id.length = L) (d : Bytes)
+    (hw : hasDir s.dirs (ctmp t id) = true → ∀ d0, cHit s.dirs s.cache t id = some d0 → d0 = d) :
     (writeBytes s t id (cbOf (t, id)) d).be = s.be.write (t, id) d ∧ Inv L cbOf (writeBytes s t id (cbOf (t, id)) d) := by
   refine ⟨rfl, ?_⟩
   unfold writeBytes
@@ -373,7 +380,7 @@ theorem ops_preserve_coherence {cbOf : Key → Bool} {s : St} (hi : Inv L cbOf s
   | write t id cb d =>
     obtain ⟨hl, hcb, hw⟩ := hop
     subst hcb
-    obtain ⟨h1, h2⟩ := write_preserves hi t hl d hw
+    obtain ⟨h1, h2⟩ := write_preserves hi t hl d (fun h => by rw [hw] at h; cases h)
     exact ⟨rfl, h1, h2⟩
   | remove t id cb =>
     obtain ⟨hl, hcb⟩ := hop
@@ -398,6 +405,72 @@ theorem transparent {cbOf : Key → Bool} (ops : List Op) (s : St) (hops : ∀ o
     obtain ⟨h1, h2, h3⟩ := ops_preserve_coherence hi op (hops op List.mem_cons_self)
     have hd := dirs_constant (L := L) s op
     obtain ⟨g1, g2, g3⟩ := ih (stepC L s op).2 (fun o ho => by rw [hd]; exact hops o (List.mem_cons_of_mem _ ho)) h3
+    simp only [runC, runU]
+    rw [h2] at g1 g2
+    exact ⟨by rw [h1, g1], g2, g3⟩
+
+/-! ### (3b) content addressing: no exception at all
+
+The file stored under a key always has the same bytes (`content k` — ids are content hashes; the assumption under which
+the property is stated).  Then a blocked cache write can never leave a wrong entry behind, and transparency holds with
+directories planted ANYWHERE in the cache directory, temp paths included. -/
+
+def CA (content : Key → Bytes) (be : SpecMap) : Prop := ∀ k d, be k = some d → d = content k
+
+def OpCA (L : Nat) (cbOf : Key → Bool) (content : Key → Bytes) : Op → Prop
+  | .read _ id => id.length = L
+  | .readPartial t id cb _ len => id.length = L ∧ cb = cbOf (t, id) ∧ 0 < len
+  | .write t id cb d => id.length = L ∧ cb = cbOf (t, id) ∧ d = content (t, id)
+  | .remove t id cb => id.length = L ∧ cb = cbOf (t, id)
+  | .list _ _ => True
+
+theorem stepU_ca {cbOf : Key → Bool} {content : Key → Bytes} {be : SpecMap} (h : CA content be) (op : Op)
+    (hop : OpCA L cbOf content op) : CA content (stepU be op).2 := by
+  cases op with
+  | read t id => exact h
+  | readPartial t id cb off len => exact h
+  | write t id cb d =>
+    intro k d' hk
+    simp only [stepU, SpecMap.write] at hk
+    by_cases e : k = (t, id)
+    · simp [e] at hk; rw [← hk, e]; exact hop.2.2
+    · simp [e] at hk; exact h k d' hk
+  | remove t id cb =>
+    intro k d' hk
+    simp only [stepU, SpecMap.remove] at hk
+    by_cases e : k = (t, id)
+    · simp [e] at hk
+    · simp [e] at hk; exact h k d' hk
+  | list t a => exact h
+
+theorem ops_preserve_coherence_ca {cbOf : Key → Bool} {content : Key → Bytes} {s : St} (hi : Inv L cbOf s)
+    (hca : CA content s.be) (op : Op) (hop : OpCA L cbOf content op) :
+    (stepC L s op).1 = (stepU s.be op).1 ∧ (stepC L s op).2.be = (stepU s.be op).2 ∧ Inv L cbOf (stepC L s op).2 ∧
+    CA content (stepC L s op).2.be := by
+  have key : (stepC L s op).1 = (stepU s.be op).1 ∧ (stepC L s op).2.be = (stepU s.be op).2 ∧
+      Inv L cbOf (stepC L s op).2 := by
+    cases op with
+    | write t id cb d =>
+      obtain ⟨hl, hcb, hd⟩ := hop
+      subst hcb; subst hd
+      obtain ⟨h1, h2⟩ := write_preserves hi t hl (content (t, id)) (fun _ d0 h0 => hca _ _ (hi.1 t id d0 hl h0))
+      exact ⟨rfl, h1, h2⟩
+    | read t id => exact ops_preserve_coherence hi _ hop
+    | readPartial t id cb off len => exact ops_preserve_coherence hi _ hop
+    | remove t id cb => exact ops_preserve_coherence hi _ hop
+    | list t a => exact ops_preserve_coherence hi _ hop
+  refine ⟨key.1, key.2.1, key.2.2, ?_⟩
+  rw [key.2.1]; exact stepU_ca hca op hop
+
+/-- **Transparency under content addressing**: ANY directories in the cache directory (no condition on `s.dirs`). -/
+theorem transparent_content_addressed {cbOf : Key → Bool} {content : Key → Bytes} (ops : List Op) (s : St)
+    (hops : ∀ op ∈ ops, OpCA L cbOf content op) (hi : Inv L cbOf s) (hca : CA content s.be) :
+    (runC L s ops).1 = (runU s.be ops).1 ∧ (runC L s ops).2.be = (runU s.be ops).2 ∧ Inv L cbOf (runC L s ops).2 := by
+  induction ops generalizing s with
+  | nil => exact ⟨rfl, rfl, hi⟩
+  | cons op rest ih =>
+    obtain ⟨h1, h2, h3, h4⟩ := ops_preserve_coherence_ca hi hca op (hops op List.mem_cons_self)
+    obtain ⟨g1, g2, g3⟩ := ih (stepC L s op).2 (fun o ho => hops o (List.mem_cons_of_mem _ ho)) h3 h4
     simp only [runC, runU]
     rw [h2] at g1 g2
     exact ⟨by rw [h1, g1], g2, g3⟩
